@@ -37,7 +37,22 @@ def load_pytenet():
 
 
 FAULT_KINDS = ['QRSIGN', 'SVDPHASE', 'SVDROT', 'TIEORDER', 'EIGSIGN', 'ULP', 'RNGENV', 'LAYOUT', 'WPROT', 'RAISE',
-               'CBALIAS', 'CBBUF', 'CBRO', 'CBMEMO', 'CBCALLS']
+               'CBALIAS', 'CBBUF', 'CBRO', 'CBMEMO', 'CBCALLS', 'GLOBALS']
+
+# process-global interpreter / numpy state a caller may legitimately have set before calling the library (fault kind GLOBALS)
+PRINTOPTS = [dict(threshold=3, edgeitems=1), dict(threshold=6, edgeitems=2, precision=2), dict(threshold=10, edgeitems=3, linewidth=40),
+             dict(threshold=0, edgeitems=1, precision=1, suppress=True)]
+ERRSTATES = {'ignore': dict(all='ignore'), 'warn': dict(all='warn'), 'raise': dict(divide='raise', invalid='raise', over='raise', under='ignore')}
+
+
+def environmental_exception(exc, op_env) -> bool:
+    """An exception that the caller's own global settings asked for (warnings as errors, numpy error state 'raise')."""
+    g = (op_env or {}).get('globals') or {}
+    if g.get('warnfilter') == 'error' and isinstance(exc, Warning):
+        return True
+    if g.get('errstate') == 'raise' and isinstance(exc, FloatingPointError):
+        return True
+    return False
 
 
 class InjectedBackendFailure(Exception):
@@ -118,10 +133,40 @@ class Env:
         self.lapack_calls = 0
         self.raised = None
         self.opfired = set()
+        self._saved_globals = None
+        g = op_env.get('globals') if 'GLOBALS' in self.enabled else None
+        if g:
+            import warnings, random
+            self._saved_globals = (_REAL_NP.geterr(), _REAL_NP.get_printoptions(), warnings.filters[:], _REAL_NP.random.get_state(), random.getstate())
+            if g.get('errstate'):
+                _REAL_NP.seterr(**ERRSTATES[g['errstate']])
+            if g.get('printopts') is not None:
+                _REAL_NP.set_printoptions(**PRINTOPTS[int(g['printopts']) % len(PRINTOPTS)])
+            if g.get('warnfilter') == 'error':
+                # warnings attributed to library code become exceptions (a subset of what `python -W error` does)
+                warnings.filterwarnings('error', module=r'pytenet(\..*)?$')
+            elif g.get('warnfilter') == 'ignore':
+                warnings.simplefilter('ignore')
+            if g.get('rngstate') is not None:
+                _REAL_NP.random.seed(int(g['rngstate']) % (2 ** 32))
+                random.seed(int(g['rngstate']))
+            self.fire('GLOBALS')
+            self.log('GLOBALS', sorted((k, v) for k, v in g.items() if v is not None))
 
     def end_op(self):
         self.active_kinds = set()
         self.raise_at = None
+        sg = getattr(self, '_saved_globals', None)
+        if sg is not None:
+            import warnings, random
+            _REAL_NP.seterr(**sg[0])
+            _REAL_NP.set_printoptions(**sg[1])
+            warnings.filters[:] = sg[2]
+            if hasattr(warnings, '_filters_mutated'):
+                warnings._filters_mutated()
+            _REAL_NP.random.set_state(sg[3])
+            random.setstate(sg[4])
+            self._saved_globals = None
 
     def want(self, kind) -> bool:
         if self.in_monitor or kind not in self.active_kinds:
